@@ -90,6 +90,7 @@ inductive Obs
   | sockClose
   | selClose
   | res (r : ActRes)
+  | tick (now : Nat)                                   -- the clock advanced (inside `selector.wait`)
   | incomplete                                         -- environment script exhausted
   deriving Repr, DecidableEq, Inhabited
 
@@ -728,7 +729,8 @@ def loop : List EnvStep → M Unit
     match step with
     | .selErr => throwE (.other "error")
     | .wait dt readable =>
-      modS fun s => { s with now := s.now + dt }
+      modS fun s => { s with now := s.now + dt,
+                               trace := if dt ≠ 0 then .tick (s.now + dt) :: s.trace else s.trace }
       regularTop
       match readable with
       | none => loop rest
